@@ -281,6 +281,25 @@ def cases():
                 els[k] = newlp
                 add('duplicate data name within a loop header', hn, doc, 41, newlp, content(copy.deepcopy(host)),
                     window=(render(doc)[1][id(newlp)][0], render(doc)[1][id(newlp)][0] + len(lp[1]) + 2))
+                # two names repeated within one header, in both orders (a A b B and a b A B): both duplicate columns are dropped
+                if len(lp[1]) >= 2:
+                    for order in ('adjacent', 'grouped'):
+                        doc = copy.deepcopy(host)
+                        els = doc[0][2]
+                        lp2 = [e for e in els if e[0] == 'loop'][0]
+                        k = els.index(lp2)
+                        a_, b_ = lp2[1][0], lp2[1][1]
+                        rest = lp2[1][2:]
+                        if order == 'adjacent':
+                            names = [a_, a_.upper(), b_, b_.upper()] + rest
+                            rows = [[row[0], ('dropped', S('dropped')), row[1], ('dropped', S('dropped'))] + row[2:] for row in lp2[2]]
+                        else:
+                            names = [a_, b_] + rest + [a_.upper(), b_.upper()]
+                            rows = [row + [('dropped', S('dropped')), ('dropped', S('dropped'))] for row in lp2[2]]
+                        newlp = ('loop', names, rows)
+                        els[k] = newlp
+                        add('two duplicate data names within a loop header', '%s %s' % (hn, order), doc, 41, newlp, content(copy.deepcopy(host)),
+                            window=(render(doc)[1][id(newlp)][0], render(doc)[1][id(newlp)][0] + len(names) + 2))
                 # MISSING_SPACE between two quoted loop values
                 doc = copy.deepcopy(host)
                 els = doc[0][2]
